@@ -112,6 +112,9 @@ pub fn alphabet(doc: &Value, size: AlphaSize, max_names: usize, spellings: bool)
         (Some(l + 1), None, Some(-2)),
         (Some(l), Some(-(l + 2)), Some(-1)),
         (Some(1), Some(-(l + 3)), Some(-2)),
+        // step 0 selects nothing
+        (None, None, Some(0)),
+        (Some(1), Some(3), Some(0)),
     ] {
         base.push(Sel::Slice(a, b, c));
     }
@@ -156,6 +159,7 @@ pub fn alphabet(doc: &Value, size: AlphaSize, max_names: usize, spellings: bool)
         red.push(Sel::Wild);
         red.push(Sel::Slice(Some(1), None, None));
         red.push(Sel::Slice(None, None, Some(-1)));
+        red.push(Sel::Slice(None, None, Some(0)));
         red.push(filter_sel("@.a"));
         red.push(filter_sel("@==1"));
         let pool: &Vec<Sel> = if size == AlphaSize::Full { &plain_base } else { &red };
